@@ -621,6 +621,12 @@ func (e *Engine) binop(st *State, op token.Token, a, b Val, opT types.Type, resT
 		if x.Sort == SBool {
 			return scalar(tb.Not(tb.Eq(x, y)))
 		}
+		// x ^ 1 flips the lowest bit: x + 1 - 2*(x mod 2) for unsigned x
+		if c, ok := y.ConstInt(); ok && c == 1 {
+			if _, signed, isInt := intBits(opT); isInt && !signed {
+				return scalar(tb.Sub(tb.Add(x, tb.Int(1)), tb.Mul(tb.Int(2), tb.Mod(x, tb.Int(2)))))
+			}
+		}
 		return scalar(e.bitUF(st, "xor", x, y, resT))
 	case token.AND_NOT:
 		return scalar(e.bitUF(st, "andnot", x, y, resT))
@@ -768,7 +774,7 @@ func (e *Engine) indexAddr(st *State, x *ssa.IndexAddr) Val {
 			base = e.materialise(st, base, bt)
 		}
 		e.oblige(st, "bounds", "", x.Pos(), tb.And(tb.Le(tb.Int(0), idx), tb.Lt(idx, base.slLen())), "index out of range")
-		return Val{T: []*Term{tb.Int(-4)}, Ann: map[string]Ann{"": &PtrX{Kind: PElem, Ref: base.slArr(), Idx: tb.Add(base.slOff(), idx), Root: bt.Elem(), Elem: -1, PType: bt.Elem()}}}
+		return Val{T: []*Term{tb.Int(-4)}, Ann: map[string]Ann{"": &PtrX{Kind: PElem, Ref: base.slArr(), Idx: tb.Idx(base.slOff(), idx), Root: bt.Elem(), Elem: -1, PType: bt.Elem()}}}
 	case *types.Pointer:
 		at := bt.Elem().Underlying().(*types.Array)
 		e.nilCheck(st, base, x.Pos(), "index through nil array pointer")
